@@ -163,7 +163,7 @@ def exhaustive_cases(seed, limit=None):
 
 
 def cases(seed, tier):
-    n = 500 if tier == "quick" else 8000
+    n = 800 if tier == "quick" else 8000
     rng = random.Random(seed * 1000003 + 3)
     for i in range(n):
         plugin = KG.PLUGINS[i % 5]
